@@ -1038,6 +1038,32 @@ def m_dict(I, a, k):
     return d
 
 
+def m_dict_init(I, a, k):
+    """dict.__init__(self, ...) on an instance of a dict subclass"""
+    obj = a[0]
+    if isinstance(obj, SObj):
+        obj.fields["__dictdata__"] = m_dict(I, a[1:], k)
+        return None
+    raise Undecided("dict.__init__ on %r" % (obj,))
+
+
+def m_dict_setitem(I, a, k):
+    from . import models_ext as E
+    obj = a[0]
+    if isinstance(obj, SObj):
+        E.dict_set(I, obj.fields.setdefault("__dictdata__", {}), a[1], a[2])
+        return None
+    raise Undecided("dict.__setitem__ on %r" % (obj,))
+
+
+def m_dict_delitem(I, a, k):
+    obj = a[0]
+    if isinstance(obj, SObj):
+        M.del_subscript(I, obj.fields.setdefault("__dictdata__", {}), a[1])
+        return None
+    raise Undecided("dict.__delitem__ on %r" % (obj,))
+
+
 def m_set(I, a, k):
     from . import models_ext as E
     return E.make_set(I, I.iterate(a[0])) if a else set()
@@ -1193,7 +1219,7 @@ def build_table():
         builtins.int: m_int, builtins.bool: m_bool, builtins.str: m_str, builtins.bytes: m_bytes,
         builtins.isinstance: m_isinstance, builtins.type: m_type, builtins.range: m_range,
         builtins.sum: m_sum, builtins.sorted: m_sorted, builtins.enumerate: m_enumerate, builtins.zip: m_zip,
-        builtins.reversed: m_reversed, builtins.list: m_list, builtins.tuple: m_tuple, builtins.dict: m_dict,
+        builtins.reversed: m_reversed, builtins.list: m_list, builtins.tuple: m_tuple, builtins.dict: m_dict, dict.__init__: m_dict_init, dict.__setitem__: m_dict_setitem, dict.__delitem__: m_dict_delitem,
         builtins.set: m_set, builtins.frozenset: m_frozenset, builtins.any: m_any, builtins.all: m_all,
         builtins.hash: m_hash, builtins.getattr: m_getattr, builtins.hasattr: m_hasattr,
         builtins.setattr: m_setattr, builtins.open: m_open, builtins.repr: m_repr, builtins.id: m_id,
